@@ -276,6 +276,9 @@ class ConnWorld(World):
                 raise EOFError("no reply")
             return m
 
+        # (slow disconnect hooks run one after the other on the thread server: a connection whose turn comes late is closed late)
+        slow_all = sum(c.get("hook_slow") or 0 for c in plan["conns"])
+
         def peer(ci, spec):
             r = results[ci] = {"conn": None, "accepted": False, "ended": None, "open_ok": None, "calls_ok": 0}
             if spec["start"]:
@@ -368,7 +371,7 @@ class ConnWorld(World):
                     else:
                         bad[12:16] = (0xffffffff).to_bytes(4, "big")
                     sk.sendall(bytes(bad))
-                    r["drain"] = self._drain(sk, 30.0)
+                    r["drain"] = self._drain(sk, 30.0 + slow_all)
                     sk.close()
                 elif end == "timeout_partial":
                     ctx.probe("timeout_partial")
@@ -384,7 +387,7 @@ class ConnWorld(World):
                 elif end == "security":
                     ctx.probe("security")
                     call(sk, st, "res", "sec", ("s",))
-                    r["drain"] = self._drain(sk, 30.0)
+                    r["drain"] = self._drain(sk, 30.0 + slow_all)
                     sk.close()
                 elif end == "kicked":
                     ctx.probe("kicked_by_server_code")
@@ -392,7 +395,7 @@ class ConnWorld(World):
                         call(sk, st, "res", "kick", ())
                     except (EOFError, OSError):
                         pass
-                    self._drain(sk, 30.0)
+                    self._drain(sk, 30.0 + slow_all)
                     sk.close()
                 elif end == "oneway_then_close":
                     ctx.probe("oneway_then_close")
